@@ -29,6 +29,17 @@ fn main() {
         std::process::exit(2);
     }
     let comp = args[1].clone();
+    if comp == "evtx-dump" {
+        // independent reader: (record id, timestamp ns) in file (enumeration) order
+        let mut parser = evtx::EvtxParser::from_path(&args[2]).unwrap();
+        for r in parser.records() {
+            match r {
+                Ok(rec) => println!("{} {}", rec.event_record_id, rec.timestamp.timestamp_nanos_opt().unwrap_or(0)),
+                Err(e) => println!("err {}", e.to_string().replace('\n', " ")),
+            }
+        }
+        return;
+    }
     if comp == "pack" {
         // s4h pack lz4 <in> <out>
         let data = std::fs::read(&args[3]).unwrap();
